@@ -314,7 +314,9 @@ func init() {
 		}
 		k, _ := strconv.Atoi(a[2])
 		back, e := runReader(dst.Bytes(), k, a[3] == "1", flateDec)
-		return fmt.Sprintf("%s out=%s back=%s rerr=%s", strings.Join(res, ","), hx(dst.Bytes()), back, e)
+		// the same bytes through the byte-slice helper (Helper.DecompressTo underneath)
+		hb, herr := wsflate.DefaultHelper.Decompress(append([]byte(nil), dst.Bytes()...))
+		return fmt.Sprintf("%s out=%s back=%s rerr=%s hback=%s herr=%s", strings.Join(res, ","), hx(dst.Bytes()), back, e, hx(hb), flErr(herr))
 	}
 	// flr <level> <hide> <m1> <m2> <how>: one wsflate.Writer used for two messages, Reset to a new destination in
 	// between (how = f: Flush, c: Close ends the first message). hide=1: the compressor offers no Reset(io.Writer),
@@ -405,7 +407,14 @@ func init() {
 		if cerr != nil {
 			return fmt.Sprintf("cerr=%s", flErr(cerr))
 		}
+		// frames returned earlier are the caller's: other frames going through the helpers in between must not change them
+		other := ws.NewBinaryFrame(bytes.Repeat([]byte("another message, "), 1+len(payload)/8))
+		ocf, _ := wsflate.CompressFrame(other)
 		dfr, derr := wsflate.DecompressFrame(ws.Frame{Header: cfr.Header, Payload: append([]byte(nil), cfr.Payload...)})
+		if ocf.Header.Rsv != 0 {
+			wsflate.DecompressFrame(ocf)
+		}
+		wsflate.CompressFrame(other)
 		return fmt.Sprintf("cerr=nil chdr=%s cpay=%s derr=%s dhdr=%s dpay=%s", hdrStr(cfr.Header), hx(cfr.Payload), flErr(derr), hdrStr(dfr.Header), hx(dfr.Payload))
 	}
 	// df <fin> <rsv> <op> <payloadhex>: DecompressFrame on its own (a frame from the wire; the payload is what an
